@@ -41,7 +41,7 @@ def main():
         caught = {}
         env = dict(ENV, PSA_REPO=wt)
         for pid in IDS:
-            rc, out = sh("/verif/bin/psa check %s --no-evidence" % pid, cwd="/verif", env=env)
+            rc, out = sh(os.environ.get("PSA_BIN", "/verif/bin/psa") + " check %s --no-evidence" % pid, cwd="/verif", env=env)
             rules = sorted(set(re.findall(r"^\S*: ([A-Z0-9@-]+) \[", out, re.M)))
             if rc != 0 or rules:
                 caught[pid] = rules or ["exit %d" % rc]
